@@ -43,11 +43,16 @@ EXTENDS Naturals, Sequences, FiniteSets, TLC, Json, ExtractCat, Layout
 CONSTANTS Pre,       \* indices of entries that may stand before the last construct
           Last,      \* indices of the constructs placed last
           MaxPre,    \* at most this many entries before the last construct
-          NLKinds
+          NLKinds,
+          Decls,     \* how the source encoding is declared: "magic" (## -*- coding: X -*- first line only),
+                     \* "option" (the extractor's encoding option only), "both", "neither" (UTF-8 / ASCII source)
+          Encs,      \* codecs: "ascii", "utf-8", "cp1251", "koi8-r", "latin-1", "iso-8859-15"; "any" = drawn by the harness
+          MsgClasses,\* "ascii" | "nonascii" (characters of the codec's repertoire) | "any"
+          Magic      \* catalog index of the magic-comment line (an untagged ## line that must be line 1)
 XCat == XCatDef
 
-VARIABLES tpl, nlk, phase, i, tcs, intc, out
-vars == <<tpl, nlk, phase, i, tcs, intc, out>>
+VARIABLES tpl, nlk, src, phase, i, tcs, intc, out
+vars == <<tpl, nlk, src, phase, i, tcs, intc, out>>
 
 LineOf(t, n) == L_LineOf(XCat, t, n)
 ColOf(t, n)  == L_ColOf(XCat, t, n)
@@ -79,14 +84,24 @@ Block(t, n) ==
 Planted(t) == {p \in (1..Len(t)) \X (1..4) : Kind(t[p[1]]) = "cons" /\ p[2] <= Len(XCat[t[p[1]]].msgs)}
 
 (* ----------------------------- the machine ---------------------------- *)
-Init == /\ tpl = <<>> /\ nlk \in NLKinds /\ phase = "build" /\ i = 1
+\* The declaration of the source encoding is part of the case.  A declaration is CORRECT when the bytes can be
+\* decoded as declared: "neither" only for UTF-8 / ASCII sources, ASCII sources only with ASCII messages.  The
+\* magic comment is a ## line of its own and therefore line 1 of the template: everything after it moves down.
+\* The property ("in any supported source encoding") makes `out` independent of src: nothing below reads it.
+HasMagic(s) == s.decl \in {"magic", "both"}
+Sources == {s \in [decl : Decls, enc : Encs, mc : MsgClasses] :
+              /\ (s.decl = "neither" => s.enc \in {"ascii", "utf-8", "any"})
+              /\ (s.enc = "ascii" => s.mc \in {"ascii", "any"})}
+NPre == Len(tpl) - (IF HasMagic(src) THEN 1 ELSE 0)
+Init == /\ nlk \in NLKinds /\ phase = "build" /\ i = 1 /\ src \in Sources
+        /\ tpl = (IF HasMagic(src) THEN <<Magic>> ELSE <<>>)
         /\ tcs = <<>> /\ intc = FALSE /\ out = <<>>
-Add(e) == /\ phase = "build" /\ Len(tpl) < MaxPre /\ e \in Pre
+Add(e) == /\ phase = "build" /\ NPre < MaxPre /\ e \in Pre
           /\ MayFollow(tpl, e) /\ Specified(tpl, e)
-          /\ tpl' = Append(tpl, e) /\ UNCHANGED <<nlk, phase, i, tcs, intc, out>>
+          /\ tpl' = Append(tpl, e) /\ UNCHANGED <<nlk, src, phase, i, tcs, intc, out>>
 AddLast(e) == /\ phase = "build" /\ e \in Last /\ MayFollow(tpl, e) /\ Specified(tpl, e)
               /\ tpl' = Append(tpl, e) /\ phase' = "run"
-              /\ UNCHANGED <<nlk, i, tcs, intc, out>>
+              /\ UNCHANGED <<nlk, src, i, tcs, intc, out>>
 \* BabelMakoExtractor.process_python: code_lineno + (lineno - 1), code_lineno = node.lineno - 1,
 \* lineno = line inside "\n" + code
 ReportedLine(nodeline, off) == (nodeline - 1) + ((1 + (off + 1)) - 1)
@@ -112,11 +127,11 @@ Step ==
             IN /\ out' = out \o ms
                /\ tcs' = (IF HasOwn(e) THEN <<>> ELSE live)
                /\ intc' = FALSE
-  /\ i' = i + 1 /\ UNCHANGED <<tpl, nlk, phase>>
+  /\ i' = i + 1 /\ UNCHANGED <<tpl, nlk, src, phase>>
 Finish == /\ phase = "run" /\ i > Len(tpl) /\ phase' = "done"
-          /\ UNCHANGED <<tpl, nlk, i, tcs, intc, out>>
-Emit == /\ phase = "done" /\ PrintT(ToJson([seq |-> tpl, nl |-> nlk, out |-> out]))
-        /\ phase' = "end" /\ UNCHANGED <<tpl, nlk, i, tcs, intc, out>>
+          /\ UNCHANGED <<tpl, nlk, src, i, tcs, intc, out>>
+Emit == /\ phase = "done" /\ PrintT(ToJson([seq |-> tpl, nl |-> nlk, src |-> src, out |-> out]))
+        /\ phase' = "end" /\ UNCHANGED <<tpl, nlk, src, i, tcs, intc, out>>
 Next == (\E e \in Pre : Add(e)) \/ (\E e \in Last : AddLast(e)) \/ Step \/ Finish \/ Emit
 Spec == Init /\ [][Next]_vars
 
